@@ -113,6 +113,22 @@ def is_only_reference_to_global(get_global_op: memref.GetGlobalOp) -> bool:
     return True
 
 
+def is_only_used_through_layout_casts(value: Operand, layout_cast: LayoutCast | None = None) -> bool:
+    """
+    Check that the value reaches all of its users through a layout cast (if one is given: through that one): its
+    users, and the users of memory space casts of it, are memory space casts or layout casts. Anything else (a
+    subview, an operation) would keep looking at the value with its current layout.
+    """
+    for use in value.uses:
+        if use.operation is layout_cast or (layout_cast is None and isinstance(use.operation, LayoutCast)):
+            continue
+        if not isinstance(use.operation, MemorySpaceCastOp):
+            return False
+        if not is_only_used_through_layout_casts(use.operation.dest, layout_cast):
+            return False
+    return True
+
+
 def get_source_operand(op: MemorySpaceCastOp | LayoutCast) -> Operand:
     """
     Find the source of a chain of layout / memory space casts.
@@ -338,7 +354,7 @@ class ApplyLayoutCastArithConstant(RewritePattern):
             return
         # the constant is replaced for all of its users: it may only be used by cast ops
         # (a subview of it keeps describing the original layout)
-        if not all(isinstance(use.operation, LayoutCast | MemorySpaceCastOp) for use in const_source.result.uses):
+        if not is_only_used_through_layout_casts(const_source.result):
             return
         # apply transformation
         assert isinstance(const_source.value, DenseIntOrFPElementsAttr)
@@ -413,6 +429,9 @@ class ApplyLayoutCastMemrefGlobal(RewritePattern):
         # the global is replaced by the transformed global: this is only possible
         # if nothing else uses the global (with its current layout)
         if const_source.memref.uses.get_length() != 1 or not is_only_reference_to_global(const_source):
+            return
+        # (also not further down a memory space cast in between)
+        if not is_only_used_through_layout_casts(const_source.memref, op):
             return
         global_op = SymbolTable.lookup_symbol(op, const_source.name_)
         if not isinstance(global_op, memref.GlobalOp):
